@@ -52,6 +52,7 @@ class CouponHashSet : public CouponList<A> {
     using ChsAlloc = typename std::allocator_traits<A>::template rebind_alloc<CouponHashSet<A>>;
     bool checkGrowOrPromote();
     void growHashSet(uint8_t tgtLgCoupArrSize);
+    void checkStoredCount() const;
 };
 
 }
